@@ -162,7 +162,7 @@ impl Sut {
     }
 }
 
-/// Read until `expect` frames have arrived (at most 3 s), then until `quiet` has passed
+/// Read until `expect` frames have arrived (at most 8 s), then until `quiet` has passed
 /// without new bytes.
 fn collect(c: &mut Client, quiet: Duration, expect: usize) -> (Vec<u8>, bool) {
     let _ = c.stream.set_nonblocking(true);
@@ -172,7 +172,7 @@ fn collect(c: &mut Client, quiet: Duration, expect: usize) -> (Vec<u8>, bool) {
     let start = Instant::now();
     let mut buf = [0u8; 65536];
     let mut have = 0usize;
-    while (last.elapsed() < quiet || have < expect) && start.elapsed() < Duration::from_secs(3) {
+    while (last.elapsed() < quiet || have < expect) && start.elapsed() < Duration::from_secs(8) {
         if have < expect {
             have = resp::decode_all(&out).0.len();
             if have >= expect {
